@@ -20,11 +20,6 @@ theorem C09_gates_generated (D : Desc) (s : St) :
     commandFound D s = Gen.command_found D (s.chkUb s.cmd.isSome) :=
   ⟨updateCommand_generated D s, searchCommand_generated D s, commandFound_generated D s⟩
 
-/-- the counters this property's theorems keep as unbounded natural numbers (`index`) are declared
-`size_t` in `cat.h` — 64 bits on the target, so they cannot wrap on any buffer, table or line that exists; the widths
-are read from the struct declarations on every run (translator item T21) -/
-theorem C09_counters_unbounded :
-    Gen.width_obj_index = 64 := by decide
 
 /-- the walk over the command groups — which entry a table index names, and whether that entry or its group is disabled —
 is the transliteration of `get_command_by_index` / `is_command_disable`, emitted while their bodies have the recorded form
@@ -32,5 +27,15 @@ is the transliteration of `get_command_by_index` / `is_command_disable`, emitted
 theorem C09_walk_generated (D : Desc) (i : Nat) :
     cmdByIndex D.groups i = Gen.get_command_by_index D i ∧ disabledByIndex D.groups i = Gen.is_command_disable D i :=
   ⟨cmdByIndex_generated D i, disabledByIndex_generated D i⟩
+
+/-- the counters this property's theorems keep as unbounded natural numbers (`cmd_group_num`, `cmd_num`, `commands_num`, `index`, `partial_cntr`) are declared
+`size_t` in `cat.h` — 64 bits on the target, so they cannot wrap on any buffer, table or line that exists; the widths
+are read from the struct declarations on every run (translator item T21) -/
+theorem C09_counters_unbounded :
+    Gen.width_desc_cmd_group_num = 64 ∧
+    Gen.width_group_cmd_num = 64 ∧
+    Gen.width_obj_commands_num = 64 ∧
+    Gen.width_obj_index = 64 ∧
+    Gen.width_obj_partial_cntr = 64 := by decide
 
 end Cat
